@@ -1,10 +1,16 @@
 """C07 — Braille output uses only the target alphabet (see DESIGN.md §3 C07)."""
+import kani_run
 from checks import braille_kernels as bk
 
 
 def build(run):
     run.outside += ["what the rule files emit (YAML + XPath interpreter)", "non-emptiness of the result",
                     "space trimming regex chains as transducers"]
+    # ---- K-C07-d: a braille-position query leaves BrailleNavHighlight as the caller set it (so 'Off' stays off) -- kernel shared with C20 ----
+    from checks import C20
+    crate_r, lemma_r = C20.restore_lemma(run)
+    crate_r = kani_run.Crate("c07restore", crate_r._args["body"])
+    run.kani(crate_r, [dict(lemma_r, id="K-C07-d.query_keeps_highlight_setting")], timeout=600)
     # ---- K-C07-b: highlight bit kernels ------------------------------------------------------
     c = bk.crate(run, "c07hl")
     run.bound("K-C07-b", "symbolic char over all 0x110000 scalar values (no bound); bool flag symbolic")
